@@ -28,3 +28,13 @@ func NewSimSessionDatabase(underlying store.StoreInterface) *InMemorySessionData
 func SimSetSessionPruneInterval(interval time.Duration) {
 	sessionStorePruneInterval = interval
 }
+
+// SimSessionMutexHeld reports whether the mutex of Atomically / GetAndDelete is held (simulation only: the scheduler must
+// not park a task that holds it).
+func SimSessionMutexHeld() bool {
+	if sessionMutex.TryLock() {
+		sessionMutex.Unlock()
+		return false
+	}
+	return true
+}
